@@ -36,6 +36,16 @@ fn file_mode(_file: &fs::File) -> Result<u32, Error> {
     Ok(0)
 }
 
+/// The RPMTAG_DIRNAMES form of a directory: the path with exactly one trailing slash
+/// (the root directory is "/", not "//").
+fn dir_name(parent: &str) -> String {
+    if parent.ends_with('/') {
+        parent.to_string()
+    } else {
+        format!("{}/", parent)
+    }
+}
+
 /// Create an RPM file by specifying metadata and files using the builder pattern.
 #[derive(Default)]
 pub struct PackageBuilder {
@@ -400,12 +410,12 @@ impl PackageBuilder {
                     path: dest.clone(),
                     desc: "no parent directory found",
                 })?;
-            (dest.to_string(), format!("/{}/", parent.to_string_lossy()))
-        } else {
             (
-                format!(".{}", dest),
-                format!("{}/", parent.to_string_lossy()),
+                dest.to_string(),
+                dir_name(&format!("/{}", parent.to_string_lossy())),
             )
+        } else {
+            (format!(".{}", dest), dir_name(&parent.to_string_lossy()))
         };
 
         let mut hasher = sha2::Sha256::default();
